@@ -6,6 +6,8 @@ CONSTANTS
   MinZero = TRUE
   KEdge = 3
   KOut = 6
+  HasRit = FALSE
+  KRit = 0
   Variant = "repaired"
 INVARIANT TypeOK
 INVARIANT NoCrash
